@@ -319,6 +319,7 @@ type wattr struct {
 type wire struct {
 	Kind  string  `json:"kind"` // "wire"
 	Raw   bool    `json:"raw"`  // PutClassAdRaw with Pad-ded texts instead of PutClassAd
+	Man   bool    `json:"manual"` // count, strings, marker + secret as two plain strings (what a C++ peer sends when it need not toggle crypto)
 	Opts  int     `json:"opts"`
 	Attrs []wattr `json:"attrs"`
 	Pad   int     `json:"pad"`
@@ -360,7 +361,32 @@ func runWire(w wire) (*wireResult, error) {
 	conn := &memConn{}
 	rs := &recStream{s: newStream(conn, w.Key, w.Enc), conn: conn}
 	m := message.NewMessageForStream(rs)
-	if w.Raw {
+	if w.Man {
+		if err := m.PutInt(ctx, len(w.Attrs)); err != nil {
+			return nil, err
+		}
+		for _, a := range w.Attrs {
+			e := a.Name + " = " + a.Text
+			res.Exprs = append(res.Exprs, e)
+			res.Names = append(res.Names, a.Name)
+			res.Texts = append(res.Texts, a.Text)
+			if classad.IsPrivateAttribute(a.Name) {
+				if err := m.PutString(ctx, message.SecretMarker); err != nil {
+					return nil, err
+				}
+			}
+			if err := m.PutString(ctx, e); err != nil {
+				return nil, err
+			}
+		}
+		res.MyType, res.TargetType = w.My, w.Tg
+		if err := m.PutString(ctx, w.My); err != nil {
+			return nil, err
+		}
+		if err := m.PutString(ctx, w.Tg); err != nil {
+			return nil, err
+		}
+	} else if w.Raw {
 		for i, a := range w.Attrs {
 			e := pad(w.Pad+i, a.Name) + "=" + pad(w.Pad+2*i+1, a.Text)
 			if (w.Pad+i)%3 == 0 {
@@ -494,7 +520,7 @@ func wireOracle(w wire, res *wireResult) (key, msg string) {
 	if !res.RawBytesSame {
 		return "rawbytes-differs", "PutClassAdRawBytes does not write the bytes PutClassAdRaw writes"
 	}
-	optIn := w.Raw || (w.Opts&32 != 0 && w.Opts&2 == 0)
+	optIn := w.Raw || w.Man || (w.Opts&32 != 0 && w.Opts&2 == 0)
 	expected := map[string]bool{}
 	for i, n := range res.Names {
 		if !optIn && classad.IsPrivateAttribute(n) {
@@ -525,7 +551,7 @@ func wireOracle(w wire, res *wireResult) (key, msg string) {
 	if res.TargetType != "" {
 		expected["targettype"] = true
 	}
-	if w.Opts&4 != 0 && !w.Raw {
+	if w.Opts&4 != 0 && !w.Raw && !w.Man {
 		expected["servertime"] = true
 	}
 	for _, n := range res.Got.GetAttributes() {
@@ -536,7 +562,7 @@ func wireOracle(w wire, res *wireResult) (key, msg string) {
 	if len(res.Got.GetAttributes()) != len(expected) {
 		return "attribute-count", fmt.Sprintf("received %d attributes, expected %d", len(res.Got.GetAttributes()), len(expected))
 	}
-	if w.Opts&1 == 0 || w.Raw {
+	if w.Opts&1 == 0 || w.Raw || w.Man {
 		if s, _ := res.Got.EvaluateAttrString("MyType"); s != res.MyType {
 			return "mytype-differs", fmt.Sprintf("MyType received %q, sent %q", s, res.MyType)
 		}
@@ -546,7 +572,7 @@ func wireOracle(w wire, res *wireResult) (key, msg string) {
 	}
 	// raw text: the expression strings in order
 	var sent []string
-	if w.Raw {
+	if w.Raw || w.Man {
 		sent = res.Exprs
 	} else {
 		if w.Opts&4 != 0 {
@@ -836,6 +862,9 @@ func wireCase(c *core.Ctx, w wire) error {
 	var first *wireResult
 	for _, st := range states {
 		w.Key, w.Enc = st[0], st[1]
+		if w.Man && w.Key && !w.Enc {
+			continue // a peer that does not toggle crypto cannot use a keyed, non-encrypting stream
+		}
 		res, err := runWire(w)
 		if err != nil {
 			return err
@@ -876,7 +905,14 @@ func wireCase(c *core.Ctx, w wire) error {
 	for _, t := range first.Texts {
 		weight += len(t) / 1500
 	}
-	if w.Raw {
+	if w.Man {
+		var its []string
+		for i, n := range first.Names {
+			its = append(its, core.Pair(core.Bool(classad.IsPrivateAttribute(n)), bs(first.Exprs[i])))
+		}
+		c.Count("wire-manual-marker")
+		c.AddCaseW(fmt.Sprintf("CWireManual %s %s %s %s", core.List(its), bs(w.My), bs(w.Tg), core.List(runs)), w, weight)
+	} else if w.Raw {
 		c.AddCaseW(fmt.Sprintf("CWire %s %s %s %s", bsList(first.Exprs), bs(w.My), bs(w.Tg), core.List(runs)), w, weight)
 	} else {
 		var at []string
@@ -1004,6 +1040,27 @@ func gen(c *core.Ctx) error {
 	if err := wireCase(c, wire{Kind: "wire", Raw: true, Pad: 1, Attrs: []wattr{{"ZKMa", `"ZKM"`}, {"ZK", "ZKM"}, {"ZKM", "2"}}, My: "ZKM"}); err != nil {
 		return err
 	}
+	// marker + secret written as two ordinary strings (both string modes): what a peer that need not
+	// toggle crypto sends, e.g. C++ on an encrypted stream
+	for i := 0; i < 6; i++ {
+		w := wire{Kind: "wire", Man: true, Attrs: genAttrs(c, 2+c.Rng.Intn(4), true), My: "Machine", Tg: []string{"", "Job"}[i%2]}
+		w.Attrs = append(w.Attrs, wattr{[]string{"ClaimId", "TransferKey", "_condor_priv_x"}[i%3], genAtom(c)})
+		if i%2 == 1 {
+			w.Attrs = append([]wattr{{"Capability", `"cap-first"`}}, w.Attrs...)
+		}
+		seen := map[string]bool{}
+		var uniq []wattr
+		for _, a := range w.Attrs {
+			if !seen[strings.ToLower(a.Name)] {
+				seen[strings.ToLower(a.Name)] = true
+				uniq = append(uniq, a)
+			}
+		}
+		w.Attrs = uniq
+		if err := wireCase(c, w); err != nil {
+			return err
+		}
+	}
 	// a type name as long as isTypeName allows
 	if err := wireCase(c, wire{Kind: "wire", Attrs: []wattr{{"Name", `"x"`}, {"Cpus", "4"}}, My: strings.Repeat("T", 128), Tg: strings.Repeat("j", 100)}); err != nil {
 		return err
@@ -1066,6 +1123,9 @@ func replay(raw json.RawMessage) error {
 		}
 		for _, st := range states {
 			w.Key, w.Enc = st[0], st[1]
+			if w.Man && w.Key && !w.Enc {
+				continue
+			}
 			res, err := runWire(w)
 			if err != nil {
 				return err
